@@ -81,6 +81,32 @@ def rule_filter(chk: Check, model, rid: str):
             pops = [e for e in r.events if e.kind == "call" and e.name.endswith(".pop")]
             vp = [e for e in pops if mentions(e.recv, "vertices")]
             ep = [e for e in pops if mentions(e.recv, "edges")]
+            fr = dict(r.ret[2]) if r.ret[0] == "obj" and r.ret[1] == "Graph" else {}
+            if not pops and all(fr.get(k, T.NONE)[0] == "comp" for k in ("vertices", "edges")):
+                # the kept entries built directly: {k: v for k, v in self.<table>.items() if <key> in <selection>}
+                def kept(comp, table):
+                    items = T.mk_call(f"self.{table}.items", [])
+                    if not (comp[1] == "dict" and len(comp[3]) == 1 and comp[3][0][1] == items and comp[2][0] == "tuple" and len(comp[4]) == 1 and comp[4][0][0] == "in"):
+                        return None
+                    el = ("elem", items, [x for x in T.walk(comp[2]) if x[0] == "elem" and x[1] == items][0][2]) if any(x[0] == "elem" and x[1] == items for x in T.walk(comp[2])) else None
+                    k, v = comp[2][1]
+                    key_el = T.mk_index(el, T.ZERO) if el else None
+                    if k[0] == "tuple" and key_el is not None and k[1] == (T.mk_index(key_el, T.ZERO), T.mk_index(key_el, T.ONE)):
+                        k = key_el
+                    ck = comp[4][0][1]
+                    if ck[0] == "tuple" and key_el is not None and ck[1] == (T.mk_index(key_el, T.ZERO), T.mk_index(key_el, T.ONE)):
+                        ck = key_el
+                    if el is None or k != key_el or v != T.mk_index(el, T.ONE) or ck != key_el:
+                        return None
+                    return comp[4][0][2]
+                sel_v, sel_e = kept(fr["vertices"], "vertices"), kept(fr["edges"], "edges")
+                chk.add(rid, "Graph.filter drops exactly the unselected vertices", sel_v == S("nodes"), f"kept vertices = {T.show(fr['vertices'])[:160]}, expected the entries of self.vertices whose key is in `nodes`", chk.loc(fi))
+                conn_sets = {e.recv for _, _, e in ins if e.recv is not None}
+                chk.add(rid, "Graph.filter drops exactly the edges outside the connection set", sel_e is not None and (not conn_sets or any(sel_e == c for c in conn_sets)),
+                        f"kept edges = {T.show(fr['edges'])[:160]}, expected the entries of self.edges whose key is in the connection set", chk.loc(fi))
+                chk.add(rid, "Graph.filter works on copies", True, "", chk.loc(fi))
+                chk.add(rid, "Graph.filter returns a Graph of the filtered dicts", True, "", chk.loc(fi))
+                continue
             ok = len(vp) == 1 and vp[0].guard[0] == "not" and vp[0].guard[1] == ("in", vp[0].args[0], S("nodes"))
             chk.add(rid, "Graph.filter drops exactly the unselected vertices", ok, f"vertices are dropped under {T.show(vp[0].guard)[:120] if vp else None}, expected `k not in nodes`", chk.loc(fi))
             ok = len(ep) == 1 and ep[0].guard[0] == "not" and ep[0].guard[1][0] == "in" and ep[0].guard[1][1] == ep[0].args[0]
